@@ -223,6 +223,12 @@ def metricFromFile (twod : Bool) (f : List UInt64) : List UInt64 :=
       | some (_, true) => 0x3ff0000000000000
       | _ => 0
 
+/-- one metric of the file (3 or 6 doubles) in memory order -/
+def rdMetricRow (ldim : Nat) : P (List UInt64) := fun s =>
+  match rdF64s ldim s with
+  | .error e => .error e
+  | .ok (f, s) => .ok (metricFromFile (ldim == 3) f, s)
+
 /-- `ref_part_metric_solb` up to the allocation of the metric block -/
 def metricPlan (cfg : Cfg) (n : Nat) (bs : Bytes) : Except Status (Nat × Int × Int × Nat × Bytes) :=
   match solPrefix cfg bs with
@@ -246,11 +252,7 @@ def decodeMetricSolbWith (cfg : Cfg) (n : Nat) (bs : Bytes) : Except Status (Lis
   else if 6 * chunk < 0 then .error .failure
   else if (cfg.allocCap : Int) < 48 * chunk then .error .null
   else
-  let rdRow : P (List UInt64) := fun s =>
-    match rdF64s ldim s with
-    | .error e => .error e
-    | .ok (f, s) => .ok (metricFromFile (ldim == 3) f, s)
-  match readLoop n (dim == 2) nnode chunk ldim rdRow false (bs.length + 2) 0
+  match readLoop n (dim == 2) nnode chunk ldim (rdMetricRow ldim) false (bs.length + 2) 0
           (List.replicate n identityMetric) s with
   | .error e => .error e
   | .ok (arr, s) => if next = tell bs s then .ok arr else .error .failure
